@@ -680,4 +680,87 @@ theorem reduceSimple_ok (s : AccGroup) (mk : Nat) (c : Counters) (hk : ∀ n ∈
   rw [if_neg (by omega)]
   exact ⟨_, rfl⟩
 
+/-! ### `--sort-reverse`: `sorting.Reverse(sorter)` = `!sorter(a, b)` on distinct keys is the flipped order -/
+
+section reverse
+open List List.MergeSort.Internal
+
+theorem merge_congr {α : Type} {r s : α → α → Bool} {l l' : List α} (hl : ∀ a ∈ l, ∀ b ∈ l', r a b = s a b) :
+    l.merge l' r = l.merge l' s := by
+  have := List.map_merge (f := id) (r := r) (s := s) (l := l) (l' := l') (by simpa using hl)
+  simpa using this
+
+theorem mergeSort_congr_nodup {α : Type} {r s : α → α → Bool} : ∀ (l : List α), l.Nodup →
+    (∀ a ∈ l, ∀ b ∈ l, a ≠ b → r a b = s a b) → l.mergeSort r = l.mergeSort s
+  | [], _, _ => by simp
+  | [x], _, _ => by simp
+  | a :: b :: l, hnd, h => by
+    have hsplit : (a :: b :: l).take (((a :: b :: l).length + 1) / 2) ++ (a :: b :: l).drop (((a :: b :: l).length + 1) / 2) = a :: b :: l :=
+      List.take_append_drop _ _
+    have hnd' := hnd
+    rw [← hsplit] at hnd'
+    have hdis := List.nodup_append.mp hnd'
+    simp only [mergeSort, splitInTwo_fst, splitInTwo_snd]
+    have ht : ∀ x, x ∈ (a :: b :: l).take (((a :: b :: l).length + 1) / 2) → x ∈ a :: b :: l := fun x hx => List.mem_of_mem_take hx
+    have hd : ∀ x, x ∈ (a :: b :: l).drop (((a :: b :: l).length + 1) / 2) → x ∈ a :: b :: l := fun x hx => List.mem_of_mem_drop hx
+    rw [mergeSort_congr_nodup _ hdis.1 (fun x hx y hy hne => h x (ht x hx) y (ht y hy) hne),
+      mergeSort_congr_nodup _ hdis.2.1 (fun x hx y hy hne => h x (hd x hx) y (hd y hy) hne)]
+    apply merge_congr
+    intro x hx y hy
+    rw [List.mem_mergeSort] at hx hy
+    exact h x (ht x hx) y (hd y hy) (hdis.2.2 x hx y hy)
+  termination_by l => l.length
+  decreasing_by all_goals (simp; omega)
+
+end reverse
+
+theorem not_less_eq_flip {α : Type} {less : α → α → Bool} (h : StrictTotal less) {a b : α} (hne : a ≠ b) :
+    (!less a b) = less b a := by
+  cases hab : less a b with
+  | true => rw [h.asymm a b hab]; rfl
+  | false => rw [h.total a b hne hab]; rfl
+
+theorem flip_strictTotal {α : Type} {less : α → α → Bool} (h : StrictTotal less) : StrictTotal (fun x y => less y x) :=
+  ⟨fun a => h.irrefl a, fun a b c h1 h2 => h.trans c b a h2 h1, fun a b hne hab => h.total b a (fun e => hne e.symm) hab⟩
+
+/-- `Groups(Reverse(sorter))` on the distinct keys of a map is `Groups` with the flipped comparison. -/
+theorem groupsWith_reverse (s : AccGroup) (less : Bytes → Bytes → Bool) (hlt : StrictTotal less) (order : List Bytes)
+    (hnd : order.Nodup) :
+    s.groupsWith (fun x y => !less x y) order = s.groupsWith (fun x y => less y x) order := by
+  unfold AccGroup.groupsWith
+  cases s.sortExpr with
+  | none =>
+    simp only
+    congr 1
+    apply mergeSort_congr_nodup order hnd
+    intro a _ b _ hne
+    rw [not_less_eq_flip hlt (fun e => hne e.symm)]
+  | some e =>
+    simp only
+    have hs : sortLess (fun x y => !less x y) = sortLess (fun x y => less y x) := by
+      funext a b
+      unfold sortLess
+      by_cases h2 : a.2 = b.2
+      · rw [if_pos h2, if_pos h2]
+      · rw [if_neg h2, if_neg h2]; exact not_less_eq_flip hlt h2
+    rw [hs]
+
+/-- The comparison `Groups` effectively sorts the distinct keys by, given the sorter of the render callback. -/
+def effLess (a : ReduceArgs) (less : Bytes → Bytes → Bool) : Bytes → Bytes → Bool :=
+  if a.sortReverse then fun x y => less y x else less
+
+theorem effLess_strictTotal (a : ReduceArgs) {less : Bytes → Bytes → Bool} (hlt : StrictTotal less) :
+    StrictTotal (effLess a less) := by
+  unfold effLess; split
+  · exact flip_strictTotal hlt
+  · exact hlt
+
+theorem groupsWith_reduceSorter (a : ReduceArgs) (s : AccGroup) (less : Bytes → Bytes → Bool) (hlt : StrictTotal less)
+    (order : List Bytes) (hnd : order.Nodup) :
+    s.groupsWith (reduceSorter a less) order = s.groupsWith (effLess a less) order := by
+  unfold reduceSorter effLess
+  split
+  · exact groupsWith_reverse s less hlt order hnd
+  · rfl
+
 end Rare.C03
